@@ -470,7 +470,11 @@ class Compiler:
             return ("pc", P.emit(ins))
         obj = self.resolve(recv, env)
         if obj is None:
-            raise Unsupported("call on a None reference")
+            # a call on a reference that is statically None: only reachable through a guard that is statically false
+            # (e.g. `if self._event is not None: self._event.set()`); executing it would be an AttributeError
+            ins = self.mk("trap", "call on a None reference", s, env)
+            ins.next = k["next"]
+            return ("pc", P.emit(ins))
         if isinstance(obj, tuple) and obj[0] == "field-of":
             sub = obj[1].fields.get(obj[2])
             if isinstance(sub, Obj):
@@ -495,7 +499,7 @@ class Compiler:
                 b.next = ("pc", pc_c)
                 b.note = "internal"
                 pc_b = P.emit(b)
-                a = self.mk("wait_sleep", obj.name, s, env)
+                a = self.mk("wait_sleep", (obj.name, tmo), s, env)
                 a.next = ("pc", pc_b)
                 return ("pc", P.emit(a))
         if isinstance(obj, Obj) and obj.kind == "buf" and f.attr == "frombytes":
